@@ -353,7 +353,8 @@ func (eval Evaluator) MinimumInputLevel() int {
 func (eval Evaluator) Evaluate(ctIn *rlwe.Ciphertext) (ctOut *rlwe.Ciphertext, err error) {
 
 	if eval.IterationsParameters == nil && eval.ResidualParameters.PrecisionMode() != ckks.PREC128 {
-		ctOut, _, err = eval.bootstrap(ctIn)
+		// The circuit works in place: it is given a copy (as in the branch below), the input is left as it is.
+		ctOut, _, err = eval.bootstrap(ctIn.CopyNew())
 		return
 
 	} else {
